@@ -865,6 +865,8 @@ def judge(ctx, prop, flags, recs, verdicts, source, stats, prefix=""):
         row = (o["entry"], o["strategy"], o["docSync"], o["recursive"], o["exclude"]["on"], o["selection"]["on"], o["checkSchema"],
                o["deep"], o["dryRun"], o["parallel"])
         ctx.count(("case", source, row, feat, rec["res"]), traces=1 + (rec["res"] == "ok" and not o["dryRun"]) + (o["parallel"] != "no"))
+        if v.get("abort"):      # R-parallel-abort: error under parallel, post-state not judged (only the timing-independent requirements)
+            stats["error_under_parallel_post_state_not_judged"] = stats.get("error_under_parallel_post_state_not_judged", 0) + 1
         stats.setdefault("results", {}).setdefault(rec["res"], 0)
         stats["results"][rec["res"]] += 1
         for f in feat:
@@ -1051,6 +1053,9 @@ def run_property(ctx, prop):
                        "per_signature": rstats.get("per_signature")}
     ctx.cov["sync"] = stats
     ctx.cov["exhaustive"] = False
+    ctx.notes.append("R-parallel-abort: a project-level sync with parallel != False that ends in an error has a timing-dependent post-state; only the "
+                     "error / exit status, the untouched source, the unselected jobs and 'fails iff sequential fails' are judged for it (counted as "
+                     "error_under_parallel_post_state_not_judged in coverage.sync[...])")
     ctx.notes.append("calibrated rules (never flagged): R-shallow, R-funny, R-update, R-copy, R-mixed - see Sync.tla section 2")
 
 
@@ -1280,5 +1285,5 @@ def cli_phase(ctx, prop, flags, stats):
     for r in recs[:2]:
         ctx.sample({"source": "command line", "call": _describe(r), "src": r["src"], "dst": r["dst"], "post": r["post"],
                     "tlc": {k: ver[r["id"]][k] for k in ("why", "viol")}})
-    stats["cli"] = {"executions": len(recs), "results": rs, "flags": flagcount, "nonconformant": cst.get("nonconformant", 0),
+    stats["cli"] = {"executions": len(recs), "results": rs, "error_under_parallel_post_state_not_judged": cst.get("error_under_parallel_post_state_not_judged", 0), "flags": flagcount, "nonconformant": cst.get("nonconformant", 0),
                     "per_signature": cst.get("per_signature"), "nonconformant_examples": cst.get("nonconformant_examples", [])[:3]}
